@@ -4,6 +4,7 @@ import Exetera.Lemmas.JoinFlatIndex
 import Exetera.Lemmas.JoinFlatDec
 import Exetera.Lemmas.C19Session
 import Exetera.Lemmas.C19Pandas
+import Exetera.Lemmas.C19Join
 /-!
 # C19 — Session-level merge and join helpers agree with relational join semantics
 
@@ -358,5 +359,24 @@ theorem get_index_correct (target fk : List Int) (hnd : target.Nodup) (hlen : (t
 example : ([5, 3, 9] : List Int).Nodup := by decide
 example : getIndex [5, 3, 9] [3, 3, 7, 9, 7, 5, 8] =
     [1, 1, INVALID_INDEX, 2, INVALID_INDEX, 0, INVALID_INDEX + 2] := by decide
+
+/-! ## `Session.join` -/
+
+/-- **join**: `values_to_join` carries one value per run of `fkey_indices` (`runKeys`: the key of every run of equal
+    adjacent entries). If every key is a row number of the destination (or a marker `≥ INVALID_INDEX`, which is dropped)
+    and the rows of each key are contiguous (one run per key), the result — in the space of the destination primary
+    key — holds at row `k` the value of the run with key `k` and the empty value `0` at every row no foreign key points
+    to. No out-of-bounds access. -/
+theorem join_correct (destLen : Nat) (fkey values : List Int) (hlen : (runKeys fkey).length = values.length)
+    (hnd : (runKeys fkey).Nodup) (hr : ∀ k ∈ fkey, k < INVALID_INDEX → 0 ≤ k ∧ k < destLen) :
+    ∃ out, join destLen fkey values = .ok out ∧ out.length = destLen ∧
+      (∀ (r : Nat) (k v : Int), (runKeys fkey)[r]? = some k → values[r]? = some v → k < INVALID_INDEX →
+        out[k.toNat]? = some v) ∧
+      (∀ d : Nat, d < destLen → (d : Int) ∉ fkey → out[d]? = some 0) :=
+  join_spec destLen fkey values hlen hnd hr
+
+example : runKeys [2, 2, 0, 0, 0, INVALID_INDEX, 3] = [2, 0, INVALID_INDEX, 3] ∧
+    (runKeys [2, 2, 0, 0, 0, INVALID_INDEX, 3]).Nodup := by decide
+example : join 5 [2, 2, 0, 0, 0, INVALID_INDEX, 3] [7, 8, 9, 10] = .ok [8, 0, 7, 10, 0] := by decide
 
 end Exetera.Props.C19
